@@ -23,10 +23,18 @@ CHECKS = {
          "Histories of 12-40 top-level evaluations in one runtime through all 15 entry points with 18 fault kinds (errors, every limit, step budget exhausted / context cancelled at an enumerated step index, host panics in five positions, errors in handlers, in-package then failure in a nested load); after every return the stack, pending conditions, evaluator nesting, entry depth, current package and raw evaluation context (hook accessors) are asserted, and a probe program must equal a twin runtime that replays a prefix of the step's effects consistent with the completion probes.",
          "Effects are atomic statements wrapped in a completion probe; the twin is driven fault-free through LoadString; unexported state is read through build-tag accessors in lisp/verif_on.go.",
          "DESIGN.md 4/C05"),
+ "C10": ("exploration", "twin execution: byte-exact transcripts across fresh runtimes, concurrent runtimes after unrelated prior activity (Go race detector build) and separate processes with different GOMAXPROCS/GOGC/prior activity",
+         "Each program (33 templates printing/enumerating/serialising maps, closures, errors, schema/json/gensym/time output, plus generated core programs) is run once, then in 4 concurrently running fresh runtimes after unrelated activity in the same process, under the race detector; a fixed sub-list is re-run in 4 separate processes (GOMAXPROCS 1/3/8/16, GOGC 20/100/400/off, 0-19 rounds of prior activity); value rendering, Stderr, error message and rendering with location, step count and probe trace must be byte-identical; any race report is a violation.",
+         "time:utc-now / time-elapsed / sleep and file loading are excluded by construction; map-order leaks are probabilistic per comparison (>=8 keys, 8 comparisons per program).",
+         "DESIGN.md 4/C10"),
  "C13": ("exploration", "reference-model runtime monitor: libjson driven through the lisp builtins, judged by an independent byte-level RFC 8259 recognizer/decoder (math/big numbers); Python json as an offline second oracle over the recorded log in the thorough tier",
          "Generated JSON-representable values are dumped (several forms, permuted insertion order: byte-identical, keys sorted, valid per the independent recognizer, decoded back to the same data, load(dump v) equal? v); generated RFC 8259 texts and ~230 named near-miss mutations are loaded under all four :string-numbers/:exact-integers combinations (keywords and use-* defaults) and must agree with the independent decoder on acceptance, structure, literal text, int/float typing, json:integer-range-error and json:syntax-error.",
          "Trusts harness/c13x (own recognizer, decoder, UTF-8 validator, big-number classification); interpretations of DESIGN.md 4/C13 and notes/NOTES-C13.md (list==vector, invalid UTF-8, duplicate names, float overflow literals, canonical-float-text 'unsure' band) are not judged.",
          "DESIGN.md 4/C13"),
+ "C14": ("exploration", "reference-model runtime monitor: generated schemas and values run through the real s: builtins, judged by an independent model of the documented meaning (exact rational comparison, own regex matcher), with string/symbol/JSON twin maps",
+         "Schemas (type x 0-4 constraints from every constructor, nested to depth 2, via s:deftype and s:make-validator) are built in a real runtime and applied to values aimed at every comparison/length constant, pattern, key set and container emptiness; the model returns the set of documented outcomes (accept / wrong-type / failed-constraint) and the real verdict must lie in it; every 5th case plants one malformation that must be refused with bad-arguments at construction and never yield a silent pass; every map is also validated as string-keyed, symbol-keyed and JSON round-tripped twin.",
+         "Trusts harness/c14x as the documented meaning (libschema README + docstrings); cases the docs do not decide are not judged (notes/NOTES-C14.md), in particular the strings \"true\"/\"false\" against s:bool/s:is-true/s:is-false, which the repository's own tests pin as accepted.",
+         "DESIGN.md 4/C14"),
 }
 
 ALL = ["C%02d" % i for i in range(1, 21)]
